@@ -45,6 +45,13 @@ theorem no_data_count_without_data (m o : ModuleM) (h : roundTripModule m = some
     o.dataCount = none :=
   (roundTrip_components m o h).noDataNoCount hd
 
+/-- a data-count section, when one is written, states exactly the number of data segments of the
+    input — which is the number of data segments written (a count that disagreed with the data
+    section would make the output invalid under every feature set) -/
+theorem data_count_is_the_segment_count (m o : ModuleM) (h : roundTripModule m = some o) (n : Nat)
+    (hn : o.dataCount = some n) : n = m.datas.length ∧ o.datas.length = n :=
+  (roundTrip_components m o h).dataCountExact n hn
+
 /-- **block types**: an empty or single-result block type is re-emitted in exactly that (MVP)
     form; a type-index block type is simplified to the MVP form whenever its signature allows it -/
 theorem simple_block_types_stay_simple (e : PEnv) (im : IdMaps) (bt : BT) (ty : SeqTy)
